@@ -155,10 +155,26 @@ func c19Eval(c *hx.Ctx, k c04Cfg, s []int, tag string) c04Result {
 	if tw < k.CBW || th < k.CBH {
 		c.Count("tile-smaller-than-codeblock")
 	}
-	if c19GeometryDiffers(k.W, k.H, tw, th, k.Levels) {
-		c.Count("tile-origin-not-aligned-to-2^levels")
-	} else {
-		c.Count("tile-origins-aligned-or-split-agrees")
+	predA := c19CBIndexOffset(k.W, k.H, tw, th, k.Levels, k.CBW, k.CBH, k.PW, k.PH)
+	predB := c19GeometryDiffers(k.W, k.H, tw, th, k.Levels)
+	switch {
+	case predA && predB:
+		c.Count("tiling:formerly-defect-A+B")
+	case predA:
+		c.Count("tiling:formerly-defect-A(cb-index)")
+	case predB:
+		c.Count("tiling:formerly-defect-B(origin-parity)")
+	default:
+		c.Count("tiling:never-affected")
+		if nx != ny {
+			c.Count("tiling:never-affected-nonsquare-grid")
+		}
+		if k.Layers >= 2 && nx*ny >= 2 {
+			c.Count("tiling:never-affected-multilayer-multitile")
+			if k.H%th != 0 {
+				c.Count("tiling:never-affected-multilayer-partial-bottom-row")
+			}
+		}
 	}
 	if res.Outcome == "ok" {
 		return res
@@ -179,6 +195,51 @@ func c19Run(c *hx.Ctx) {
 	mk := func(w, h, tw, th, comps, p, lv, ly int) c04Cfg {
 		return c04Cfg{W: w, H: h, C: comps, P: p, Levels: lv, CBW: 16, CBH: 16, Layers: ly, MCT: true, TW: tw, TH: th}
 	}
+	// EXPECTED-CORRECT tilings: neither known predicate holds (A: every tile's resolution origin is below one
+	// code-block; B: every tile origin is a multiple of 2^levels), so the unchanged library round-trips them and
+	// any failure here is a NEW defect (class j2k-tiled-other-*, never listed). Non-square grids (nx != ny), partial
+	// right/bottom tiles, 1..3 layers (>= 2 layers with several tiles takes writeTilesWithGlobalRateDistortion),
+	// 1 and 3 components, every progression.
+	grids := [][2]int{{2, 3}, {1, 4}, {4, 2}, {3, 1}, {2, 2}, {3, 5}, {5, 2}, {1, 2}, {6, 3}, {2, 7}}
+	nExp := 0
+	for lv := 0; lv <= 3; lv++ {
+		for gi, g := range grids {
+			for _, partial := range []int{0, 1, 2} { // 0: exact; 1: partial right+bottom tiles; 2: last tile row/column 1 sample
+				unit := 1 << lv
+				tw, th := unit*r.Range(1, max(1, 8/unit)), unit*r.Range(1, max(1, 8/unit))
+				if lv == 0 {
+					tw, th = r.Range(1, 9), r.Range(1, 9) // any tile size is aligned at 0 levels
+				}
+				w, h := g[0]*tw, g[1]*th
+				switch partial {
+				case 1:
+					w -= r.Range(0, tw-1)
+					h -= r.Range(1, max(1, th-1))
+					if th == 1 {
+						h = g[1] * th
+					}
+				case 2:
+					w = (g[0]-1)*tw + 1
+					h = (g[1]-1)*th + 1
+				}
+				if w < 1 || h < 1 {
+					continue
+				}
+				ly := []int{1, 2, 3}[(gi+partial+lv)%3]
+				k := mk(w, h, tw, th, []int{1, 3}[(gi+lv)%2], []int{8, 12, 16}[(gi+partial)%3], lv, ly)
+				k.CBW, k.CBH = 64, 64
+				k.Prog = (gi + lv) % 5
+				if c19CBIndexOffset(k.W, k.H, tw, th, k.Levels, k.CBW, k.CBH, 0, 0) || c19GeometryDiffers(k.W, k.H, tw, th, k.Levels) {
+					c.Count("expected-correct:generator-miss")
+					continue
+				}
+				nExp++
+				c19Eval(c, k, c04Samples(r, k, 0), "expected-correct")
+			}
+		}
+	}
+	c.Sample(map[string]any{"expected_correct_tilings_evaluated": nExp,
+		"note": "since fix 104b234 EVERY tiling is expected-correct (no class is listed for C19); tags tiling:formerly-defect-A/B mark tilings that exercised the two repaired tile-geometry defects, tiling:never-affected the rest"})
 	// boundary cases: aligned tilings, the probe's witness, last tile one sample wide, 1x1 tiles
 	for _, g := range [][4]int{{16, 16, 8, 8}, {17, 8, 8, 8}, {9, 9, 4, 4}, {12, 12, 5, 5}, {8, 8, 1, 1}, {33, 17, 16, 16}, {6, 1, 3, 1}, {1, 6, 1, 3}, {10, 10, 3, 7}, {64, 64, 32, 32}, {20, 20, 6, 6}} {
 		for lv := 0; lv <= 5; lv++ {
